@@ -23,6 +23,7 @@ class Elem:
         sub = getattr(self, "sub", None)
         return (self.kind, self.param if not isinstance(self.param, (bytes, bytearray)) else bytes(self.param), self.lo, self.hi,
                 None if self.values is None else self.values.iv,
+                None if getattr(self, "first", None) is None else self.first.iv,
                 None if not sub else (tuple(x.sig() for x in sub), getattr(self, "sub_full", False)))
 
 
@@ -193,17 +194,43 @@ def analyse_path(st):
     # (value sets come from the verify predicates only: later comparisons of the parsed numbers
     #  by the reassembly logic are not part of the sentence grammar)
     verified = {}
+    byte_first = {}     # position (Lin key) -> allowed byte values, from predicates on a few bits of one byte
     for e in st.events:
-        if e[0] == "verify" and e[2] is True and e[3] is not None:
+        if e[0] == "verify" and e[2] is True:
             vk = e[1]
-            if vk[0] == "int" and vk[3][0] == "lin" and len(vk[3][1]) == 1:
-                verified[vk[3][1][0][0]] = e[3]
+            handled = False
+            if e[3] is not None and vk[0] == "int" and vk[3][0] == "lin" and len(vk[3][1]) == 1 and vk[3][1][0][1] == 1 and vk[3][2] == 0:
+                a = vk[3][1][0][0]
+                if a[0] in ("parsed", "hexval", "byte"):
+                    verified[a] = e[3] if a not in verified else verified[a].intersect(e[3])
+                    handled = True
+                elif a[0] == "bits" and a[1] == LINE:
+                    pos, nb = a[2], a[3]
+                    pl = Lin.const(pos) if isinstance(pos, int) else Lin(pos[1], pos[2])
+                    if all(k % 8 == 0 for _, k in pl.terms) and (pl.c % 8) + nb <= 8:
+                        o = pl.c % 8
+                        P = Lin(tuple((t, k // 8) for t, k in pl.terms), pl.c // 8)
+                        ok_bytes = IntSet.of(*[b for b in range(256) if e[3].contains((b >> (8 - o - nb)) & ((1 << nb) - 1))])
+                        cur = byte_first.get(P.key())
+                        byte_first[P.key()] = (P, ok_bytes if cur is None else cur[1].intersect(ok_bytes))
+                        handled = True
+            if not handled:
+                raise Unanalysable("acceptance depends on a verify() predicate over a value the sentence grammar cannot express: %r" % (vk,))
     def all_elems(ch):
         for el in ch:
             yield el
             if getattr(el, "sub", None):
                 for x in all_elems(el.sub):
                     yield x
+    for el in all_elems(chain):
+        k = el.start.key()
+        if k in byte_first:
+            cur = getattr(el, "first", None)
+            el.first = byte_first[k][1] if cur is None else cur.intersect(byte_first[k][1])
+    placed = set(el.start.key() for el in all_elems(chain) if getattr(el, "first", None) is not None)
+    for k in byte_first:
+        if k not in placed:
+            raise Unanalysable("a predicate restricts a byte in the middle of a grammar element (position %r)" % (byte_first[k][0],))
     for i, el in enumerate(all_elems(chain)):
         if el.kind == "digit1":
             term = ("utf8", ("slice", LINE, el.start.key(), (el.end - el.start).key()))
@@ -291,6 +318,8 @@ def path_fragment(f, chain, in_sub=False):
     for i, el in enumerate(chain):
         k = el.kind
         sub = getattr(el, "sub", None)
+        if sub and k in ("take_until", "take") and getattr(el, "first", None) is not None:
+            raise Unanalysable("first-byte predicate on a capture that is parsed again")
         if sub and k in ("take_until", "take"):
             # a captured slice that is parsed again: (sub-chain . rest) within the capture's own class
             if k == "take_until":
@@ -313,6 +342,23 @@ def path_fragment(f, chain, in_sub=False):
                 frs.append(product_copy(f, tmp, subfr, tmp2, bound))
             else:
                 frs.append(filtered_copy(f, tmp, subfr, allowed))
+            continue
+        first = getattr(el, "first", None)
+        if first is not None:
+            fb = frozenset(first.values())
+            if k == "take_until" and len(el.param) == 1:
+                nxt = chain[i + 1] if i + 1 < len(chain) else None
+                if nxt is None or nxt.kind != "tag" or nxt.param[:1] != el.param:
+                    raise Unanalysable("take_until(%r) not followed by its delimiter" % (el.param,))
+                allowed = frozenset(ALL - set(el.param))
+                frs.append(f.seq(f.cls(fb & allowed), f.repeat(allowed, max(el.lo - 1, 0), None if el.hi is None else el.hi - 1)))
+            elif k == "take" and el.param >= 1:
+                frs.append(f.seq(f.cls(fb), f.repeat(ALL, el.param - 1, el.param - 1)))
+            elif k == "anychar":
+                vs = fb if el.values is None else fb & frozenset(el.values.values())
+                frs.append(f.cls(vs))
+            else:
+                raise Unanalysable("first-byte predicate on a %s element" % k)
             continue
         if k == "tag":
             frs.append(f.lit(el.param))
